@@ -98,7 +98,13 @@ def unary_case(draw, mode):
         from ..gen import _factorizations
 
         arg = list(draw(st.sampled_from(_factorizations(n))))
-    return {'what': what, 'kind': kind, 'shape': shape, 'dtype': dt, 'comps': comps, 'arg': arg}
+    # components of one container may have different dtypes (each operation acts on every component independently)
+    cdts = None
+    if draw(st.integers(0, 2)) == 0 and what != 'matmul':
+        pool = ['float32', 'float16', 'int32'] + (['float64'] if mode == 'x64' else [])
+        cdts = [draw(st.sampled_from(pool)) for _ in kind]
+        comps = [[float(int(v)) or 1.0 for v in c] for c in comps]
+    return {'what': what, 'kind': kind, 'shape': shape, 'dtype': dt, 'comps': comps, 'arg': arg, 'cdts': cdts}
 
 
 @st.composite
@@ -251,6 +257,11 @@ def _check_unary(r, mode):
     x = _make(kind, shape, dt, r['comps'])
     xs = [np.asarray(c, dtype=np.float64).reshape(shape) for c in r['comps']]
     w = r['what']
+    cdts = r.get('cdts')
+    if cdts and w != 'props':
+        from furax.landscapes import StokesPyTree
+
+        x = StokesPyTree.class_for(kind)(*[jnp.asarray(a, dtype=d) for a, d in zip(xs, cdts)])
     if w == 'props':
         if tuple(x.shape) != shape or np.dtype(x.dtype) != np.dtype(dt):
             raise Violation('shape-dtype', f'shape {x.shape} dtype {x.dtype}')
@@ -285,10 +296,11 @@ def _check_unary(r, mode):
         res, ref = must_not_raise(w, lambda: x[idx_j]), [a[idx_n] for a in xs]
     if type(res) is not type(x):
         raise Violation('unary-type', f'{w}: {type(res).__name__}')
-    for c, g, want in zip(kind.lower(), _leaves(res), ref):
+    for ci, (c, g, want) in enumerate(zip(kind.lower(), _leaves(res), ref)):
+        dt = cdts[ci] if cdts else r['dtype']
         if g.shape != want.shape or not np.array_equal(g.astype(np.float64), want) or np.dtype(g.dtype) != np.dtype(dt):
             raise Violation('unary-value:' + w, f'component {c}: got {g.reshape(-1)[:4]} ({g.dtype}, shape {g.shape}) instead of {want.reshape(-1)[:4]} (shape {want.shape})')
-    return {'nontrivial': False, 'classes': ['unary:' + w]}
+    return {'nontrivial': bool(cdts), 'classes': ['unary:' + w] + (['mixed_component_dtypes'] if cdts else [])}
 
 
 def _leaves_struct(s):
